@@ -361,6 +361,13 @@ func (s *Store) LoadByRecoverSelector(ctx context.Context, selector string) (aut
 	return nil, authboss.ErrUserNotFound
 }
 
+// SeedToken files a remember token hash without counting as a backend call.
+func (s *Store) SeedToken(pid, token string) {
+	s.mu.Lock()
+	defer s.mu.Unlock()
+	s.tokens[pid] = append(s.tokens[pid], token)
+}
+
 func (s *Store) AddRememberToken(ctx context.Context, pid, token string) error {
 	if err := s.B.Enter("AddRememberToken", nil); err != nil {
 		return err
